@@ -171,6 +171,10 @@ def run_sort(case, ctx):
             ok = False
             break
     ctx.check('sort_nondecreasing', ok, lambda: 'sort result not non-decreasing under cmp: %r' % (res,))
+    from pyg_base import Cmp
+    st2, res2 = ctx.call(lambda: sorted(list(xs), key=Cmp))
+    ok2 = st2 == 'ok' and sorted(map(id, res2)) == sorted(snap0) and all(cmp(a, b) <= 0 for a, b in zip(res2, res2[1:]))
+    ctx.check('sorted_key_Cmp', ok2, lambda: 'sorted(xs, key=Cmp) -> %s %r' % (st2, res2))
     flat = [c for x in case['xs'] for c in (x['$t'] if isinstance(x, dict) and '$t' in x else [x])]
     fam = {('nan' if isinstance(c, dict) and '$nan' in c else type(c).__name__) for c in flat}
     nanpos = [i for i, x in enumerate(case['xs']) if 'nan' in repr(x)]
